@@ -89,6 +89,25 @@ def requests(n):
             out.append((list(sub), 'back'))
             out.append((list(sub), 'front'))
     out.append(([], 'only'))
+    # an unknown id that merely *extends* a stored id (longer than every stored id): a reader that coerces the
+    # request to the file's fixed-width id type would truncate it onto the stored one
+    out.append(([], 'prefix-only'))
+    for k in range(1, n):
+        for sub in itertools.combinations(range(1, n), k):
+            out.append((list(sub), 'prefix-back'))
+    return out
+
+
+def wide_requests(n):
+    """axes longer than ten ids (positions with one and two digits): all pairs, a few triples, in both orders"""
+    out = []
+    for a, b in itertools.combinations(range(n), 2):
+        out.append(([a, b], None))
+    for tri in ([3, 7, 10], [2, 11, 5], [0, 9, 10], [1, 10, 11]):
+        out.append((tri, None))
+        out.append((tri[::-1], None))
+    out.append(([10], 'back'))
+    out.append(([], 'prefix-only'))
     return out
 
 
@@ -113,6 +132,11 @@ def table_specs(tier, seed):
                 specs.append({'prod': 'H', 'shape': list(shape), 'mask': FIXED[shape][0], 'rot': rot,
                               'pool': 'hard', 'obs_md': 'text', 'samp_md': 'text', 'header': hd, 'gen': g,
                               'type': vocab[(g + hd + seed) % len(vocab)]})
+    # W: one axis with more than ten ids (one- and two-digit positions)
+    for shape in ((12, 2), (2, 12)):
+        for md in ('text', 'none'):
+            specs.append({'prod': 'W', 'shape': list(shape), 'mask': 0b101101110111011101101011, 'rot': rot,
+                          'pool': 'hard', 'obs_md': md, 'samp_md': md, 'header': 1, 'type': 'OTU table'})
     # T: every table type incl. an absent one ("type": null in the JSON text), no table id, no metadata
     for shape in tier_shapes(tier):
         for ty in D.TYPES:
@@ -134,7 +158,9 @@ def cases(tier, seed):
     for spec in table_specs(tier, seed):
         for axis in ('observation', 'sample'):
             n = spec['shape'][0] if axis == 'observation' else spec['shape'][1]
-            for req, unk in requests(n):
+            if spec['prod'] == 'W' and n <= 3:
+                continue
+            for req, unk in (wide_requests(n) if spec['prod'] == 'W' else requests(n)):
                 c = dict(spec)
                 c.update({'axis': axis, 'req': req, 'unknown': unk})
                 out.append(c)
@@ -320,6 +346,9 @@ def check(case, acc, tmp):
         want = want + [UNKNOWN]
     elif unk in ('front', 'only'):
         want = [UNKNOWN] + want
+    elif unk in ('prefix-only', 'prefix-back'):
+        width = max(len(i) for i in ax_ids)
+        want = want + [ax_ids[0] + '0' * (width - len(ax_ids[0]) + 1)]
     tag = '%016x' % h64(json.dumps(case, sort_keys=True))
     acc.count('prod:' + case['prod'])
     acc.count('axis:' + axis)
@@ -616,7 +645,8 @@ CLAUSES = ['clause:equals-load-then-filter:' + v for v in 'ABCDE'] + \
           ['clause:unknown-id-refused:' + v for v in 'ABDE'] + \
           ['clause:D-output-is-json', 'clause:D-identical-across-serialisations', 'clause:drop-exercised',
            'order:file', 'order:reversed', 'order:other', 'idform:str-ids', 'idform:bytes-ids',
-           'unknown:back', 'unknown:front', 'unknown:only', 'prod:M', 'prod:S', 'prod:K', 'prod:H',
+           'unknown:back', 'unknown:front', 'unknown:only', 'unknown:prefix-only', 'unknown:prefix-back',
+           'prod:W', 'prod:T', 'prod:M', 'prod:S', 'prod:K', 'prod:H',
            'axis:observation', 'axis:sample'] + ['ser:' + n for n, _, _ in SERS]
 
 
